@@ -1,8 +1,8 @@
 (** C20 trace monitor: twin runs of the REAL endpoints (simulator scenario key 901).
 
     Input: scenario parameters and [trace A ++ [[99]] ++ trace B] (projection of comps/sim_c20.py:
-    every record except the state probes, of which a fixed sample and the first one with the Pacing
-    timer armed are kept).  Run B differs from run A as selected by key 901:
+    every record except the state probes, of which a fixed sample, the first one with the Pacing
+    timer armed and the first one after each handle_timeout call are kept).  Run B differs from run A as selected by key 901:
       1 identical replay            -> B must equal A record by record   (determinism: no ambient input)
       2 every instant + 977_777_777 -> B must equal A record by record   (trace times are relative: this
                                        is the executable form of [shift_equivariant] of Props/C20.v,
@@ -12,7 +12,8 @@
                                        instant at which the Pacing timer is armed in either run (the stated
                                        footprint of an extra poll_transmit: the token bucket is refilled
                                        lazily on the call and admits one datagram as soon as tokens >= MTU,
-                                       the Pacing timer waits for a full burst; nothing else may change) —
+                                       the Pacing timer waits for a full burst; nothing else may change) or
+                                       a drive ends with an already-due deadline (see [v3_lim]) —
                                        executable form of [spurious_timeout_noop] / [poll_on_empty_queues_is_noop]
       4 timers serviced up to 3 ms late -> no comparison (outputs legitimately differ)
     Per run (both halves, every variant):
@@ -20,13 +21,13 @@
             at one instant (the simulator calls again at the same instant while poll_timeout <= now):
             executable form of [timeouts_settle_bounded];
       (ii)  a drained connection (ZOMBIE record) shows no transmit / event / endpoint event;
-      (iv)  right after a handle_timeout(now) call (first state probe of the connection at the same
+      (iii) right after a handle_timeout(now) call (first state probe of the connection at the same
             instant) no timer other than LossDetection and PushNewCid is armed at an instant before
             [now], and the KeepAlive timer (armed at now + whole microseconds) is unset or strictly
             after [now] — the strict handler contract [contract] of Model/TimerTable.v,
             by inspection true of every handler except the PTO branch of LossDetection (probe
             timers are truncated to microseconds, hence [<] for the ns-valued ones);
-      (iii) no PANIC record (handled by [run_from]), the drive loop settles (no ANOMALY 2), the run
+      (iv)  no PANIC record (handled by [run_from]), the drive loop settles (no ANOMALY 2), the run
             does not exhaust the step budget (END reason 3) nor the record budget of the projection
             (record 98). *)
 From Coq Require Import ZArith List Bool.
@@ -122,9 +123,16 @@ Section Cmp.
     end.
 End Cmp.
 
-(** earliest instant, over both runs, at which a state probe shows the Pacing timer armed *)
-Definition paced_lim (o : list (list Z)) : Z :=
-  fold_left (fun m r => if (tag r =? 8) && negb (pf r 24 =? -1) then Z.min m (rtime r) else m) o INF.
+(** earliest instant, over both runs, at which (a) a state probe shows the Pacing timer armed, or
+    (b) a connection ends a drive with a deadline that is already due (a timer armed in the past while
+    a datagram was handled): a handle_timeout call at such an instant is not an extra call — it
+    services the timer before instead of after the pending transmit, which legitimately changes the
+    packetisation (e.g. PTO probes coalesced with a PATH_RESPONSE) *)
+Definition v3_lim (o : list (list Z)) : Z :=
+  fold_left (fun m r =>
+    if (tag r =? 8) && negb (pf r 24 =? -1) then Z.min m (rtime r)
+    else if (tag r =? 6) && (0 <=? fld r 4) && (fld r 4 <=? rtime r) then Z.min m (rtime r)
+    else m) o INF.
 
 Definition keep_all (r : list Z) : bool := true.
 Definition keep_v3 (lim : Z) (r : list Z) : bool :=
@@ -135,7 +143,7 @@ Definition twin_ok (twin : Z) (o : list (list Z)) : option Z :=
   | None => if (1 <=? twin) && (twin <=? 4) then Some 0 else None   (* a twin scenario without run B *)
   | Some b =>
       if (twin =? 1) || (twin =? 2) then cmp keep_all 0 o b
-      else if twin =? 3 then cmp (keep_v3 (paced_lim o)) 0 o b
+      else if twin =? 3 then cmp (keep_v3 (v3_lim o)) 0 o b
       else None
   end.
 
